@@ -121,6 +121,16 @@ CHECKS = {
              "repaired), and Coq computes the premise and instantiates the theorem for every converter class. Real ASDF round trips "
              "over a zoo of frames/transforms/open modes compare fields, behaviour bit for bit, tree idempotence; deepcopy/pickle isolation.",
         ref="5 C09", technique="Coq proof with premises computed on tables regenerated from source + real ASDF round-trip correspondence"),
+    "C10": dict(
+        text="Theorems over the rationals about the decision part of the SIP export: the degree argument is normalised to an ascending list "
+             "within 1..9 or rejected; the degree search (LU fit as an arbitrary oracle) returns silently only with the LOWEST permitted "
+             "degree whose residual meets the request, every lower permitted degree having been fitted and found insufficient; a silent "
+             "return implies both the node and the double-sampled residual are within the request; a reported error above the request "
+             "always comes with a warning; the reported error is never below either residual; CD.(u+A, v+B) reproduces the fitted "
+             "polynomials for every coefficient list with det CD != 0; the stored keyword set is exactly mindeg < i+j <= degree. Tied by AST "
+             "pins and by driving the real _fit_2D_poly with scripted fits through every branch against the model evaluated in Coq. PARTIAL: "
+             "the numerical accuracy of the LU fit and wcslib's reading of the header are measured on a dense grid (tested), not proved.",
+        ref="5 C10", technique="Coq proof over rationals (hand model) + AST pins + scripted-fit correspondence + wcslib dense-grid differential"),
     "C11": dict(
         text="Theorems over the rationals about the -TAB bookkeeping: node_exact (the FITS reader's index at the pixel of node k is "
              "exactly k+1 for every box and sampling: the tabulated value, no interpolation), table_spans_box, index_affine, "
